@@ -252,6 +252,10 @@ func runC07(c *Ctx) {
 		"golang.org/x/text/transform.Bytes": "indexes the output of an external UTF-16 decoder; non-empty because the only producer of its argument (variableLocatorDecode, checked by this rule) yields an even length ≥ 4 and every code unit decodes to ≥ 1 byte — a numeric fact about x/text that no rule here can derive",
 	})
 	c.widenAfterArithRule("T12", fns)
+	// T21: a difference of two non-constant values that is used as a bound (or is unsigned) is taken only where the
+	// subtrahend is known to be no larger than the minuend
+	// (none on the present tree: the canary mutant C07-range-check-by-subtraction must fire)
+	c.S.OK("T21", "relying-party closure:guarded differences", "", fmt.Sprintf("%d differences of two non-constant values used as bounds (or unsigned) examined", c.guardedSubRule("T21", fns, t21Reasons, os.Getenv("VCHECK_SURVEY") != "")), false)
 	c.foreignBoundSliceRule("T13", fns)
 	if os.Getenv("VCHECK_SURVEY") != "" {
 		c.surveyAccesses(fns)
